@@ -4,9 +4,17 @@ import BppProofs.Lemmas.Hmm
 
 Property theorems only; helper lemmas are in `Lemmas/Hmm.lean`.  All statements are about the
 model `BppModel/Hmm.lean` read at `ℝ` (exact arithmetic: rounding is not modelled).
+
+A sequence of `T` positions is given as the emissions `e0` of position 0 and the list `sites` of
+the positions `1 … T-1`, each tagged with "the chain is restarted here".  The theorems hold for
+**every** such tagging; `flags_of_valid_breaks` shows that for break points given as a strictly
+increasing vector in `1 … T-1` the code's iterator logic (`Hmm.fwdFlags`, used by `Hmm.mkSites`)
+restarts exactly at the break points.
 -/
 namespace Bpp.C13
 open Bpp Bpp.Hmm
+
+/-! ## The specification: sum over all hidden paths -/
 
 /-- The unscaled forward recursion, restarted at the flagged sites, computes the sum over **all**
 hidden paths of (π·P)(y₀)·Π transitions·Π emissions, for every number of states, every length and
@@ -14,5 +22,84 @@ every placement of restarts.  (No sign hypothesis is needed.) -/
 theorem forward_is_path_sum (p : Params ℝ) (e0 : Emis ℝ) (sites : List (Site ℝ)) :
     fwdU p e0 sites = pathSum p e0 sites :=
   fwdU_eq_pathSum p e0 sites
+
+/-- The code starts (and restarts) the chain with one transition from the equilibrium vector,
+`Σ_k π_k·P(k,y)`.  When `π` is a stationary distribution of `P` this is `π_y`: the chain is started
+from its stationary distribution, as the property says. -/
+theorem init_stationary (p : Params ℝ) (hst : ∀ y, y < p.n → ∑ k ∈ Finset.range p.n, p.pi k * p.P k y = p.pi y)
+    (y : Nat) (hy : y < p.n) : initW p y = p.pi y := by
+  rw [initW_eq, ← hst y hy]; apply Finset.sum_congr rfl; intro k _; ring
+
+/-- break points given as a strictly increasing vector in `1 … T-1`: the forward iterator logic of
+the three classes restarts the chain exactly at the break points -/
+theorem flags_of_valid_breaks (es : List (Emis ℝ)) (bps : List Nat) (hv : ValidBreaks (es.length + 1) bps) :
+    (mkSites es bps).map (·.1) = (List.range es.length).map (fun k => decide (k + 1 ∈ bps)) := by
+  unfold mkSites
+  rw [fwdFlags_eq (es.length + 1) es.length 1 bps (by omega) hv.1 hv.2]
+  rw [List.map_fst_zip (by simp)]
+  apply List.map_congr_left; intro k _; rw [Nat.add_comm]
+
+/-! ## Rescaled class -/
+
+/-- every scale factor is ≥ 0 and their product is the path sum — including when some scale is 0 -/
+theorem rescaled_scales_prod (p : Params ℝ) (hp : NonNegP p) (e0 : Emis ℝ) (he0 : NonNegE e0)
+    (sites : List (Site ℝ)) (hs : NonNegS sites) :
+    (rescForward p e0 sites).scales.prod = pathSum p e0 sites ∧ ∀ c ∈ (rescForward p e0 sites).scales, 0 ≤ c := by
+  refine ⟨by rw [scales_prod_eq_fwdU p hp e0 he0 sites hs, fwdU_eq_pathSum], ?_⟩
+  intro c hc
+  unfold rescForward at hc
+  simp only [List.mem_map] at hc
+  obtain ⟨x, hx, rfl⟩ := hc
+  have := rescLoop_scales_nonneg p hp ((true, e0) :: sites)
+    (by intro s hs'; rcases List.mem_cons.mp hs' with rfl | h; exact he0; exact hs s h) (fun _ => 0) (fun _ _ => le_refl _)
+  have hnil : rescLoop p ((true, e0) :: sites) [] = rescLoop p ((true, e0) :: sites) (vec p.n (fun _ => (0:ℝ))) := by
+    simp only [rescLoop, rescTmp_true]
+  rw [hnil] at hx
+  exact this x hx
+
+/-- `exp (logLik_) = Σ over all hidden paths`, when every scale factor is positive -/
+theorem rescaled_eq (p : Params ℝ) (hp : NonNegP p) (e0 : Emis ℝ) (he0 : NonNegE e0)
+    (sites : List (Site ℝ)) (hs : NonNegS sites) (hpos : ∀ c ∈ (rescForward p e0 sites).scales, 0 < c) :
+    Real.exp (rescForward p e0 sites).logLik = pathSum p e0 sites := by
+  rw [rescForward_logLik, exp_sum_log _ hpos]
+  exact (rescaled_scales_prod p hp e0 he0 sites hs).1
+
+/-- the zero-scale case stated outright: some scale factor is 0 exactly when the data have
+probability 0 (the code then sums a `log 0 = -inf`; in `ℝ` there is no such value, so the statement
+is about the scale factors themselves) -/
+theorem rescaled_zero_scale (p : Params ℝ) (hp : NonNegP p) (e0 : Emis ℝ) (he0 : NonNegE e0)
+    (sites : List (Site ℝ)) (hs : NonNegS sites) :
+    (∃ c ∈ (rescForward p e0 sites).scales, c = 0) ↔ pathSum p e0 sites = 0 := by
+  rw [← (rescaled_scales_prod p hp e0 he0 sites hs).1, List.prod_eq_zero_iff]
+  constructor
+  · rintro ⟨c, hc, rfl⟩; exact hc
+  · intro h; exact ⟨0, h, rfl⟩
+
+/-! ## Low-memory class -/
+
+/-- for **every** chunk size (also larger than the sequence), the low-memory class returns the
+log-likelihood of the rescaled class -/
+theorem lowmem_eq_rescaled (p : Params ℝ) (hp : NonNegP p) (maxSize : Nat) (e0 : Emis ℝ) (he0 : NonNegE e0)
+    (sites : List (Site ℝ)) (hs : NonNegS sites) :
+    lowForward p maxSize e0 sites = (rescForward p e0 sites).logLik :=
+  lowForward_eq p hp maxSize e0 he0 sites hs
+
+/-! ## Log-sum class -/
+
+/-- for strictly positive transition, equilibrium and emission entries the log-sum class returns
+the logarithm of the path sum -/
+theorem logsum_eq (p : Params ℝ) (hn : 0 < p.n) (hp : PosP p) (e0 : Emis ℝ) (he0 : PosE e0)
+    (sites : List (Site ℝ)) (hs : PosS sites) :
+    (logForward p e0 sites).ll = Real.log (pathSum p e0 sites) := by
+  rw [logForward_ll p hn hp e0 he0 sites hs, fwdU_eq_pathSum]
+
+/-! ## Non-vacuity -/
+
+/-- a 2-state chain satisfying every hypothesis above -/
+noncomputable def exP : Params ℝ := { n := 2, P := fun _ _ => 1 / 2, pi := fun _ => 1 / 2 }
+example : PosP exP ∧ NonNegP exP ∧ 0 < exP.n := by
+  refine ⟨⟨fun _ _ => by simp [exP], fun _ => by simp [exP]⟩, ⟨fun _ _ => by simp [exP], fun _ => by simp [exP]⟩, by simp [exP]⟩
+example : ValidBreaks 5 [1, 3] := by
+  refine ⟨by simp, ?_⟩; intro b hb; simp at hb; rcases hb with rfl | rfl <;> omega
 
 end Bpp.C13
